@@ -289,6 +289,8 @@ class BuiltinsMixin:
             return iter(out)
         if isinstance(v, (SymSeq, SymMap)):
             raise Unsupported("iteration over symbolic-length container (needs an invariant or a rule)")
+        if v is None or type(v) in (int, float, bool) or (isinstance(v, SV) and v.ty in ("int", "real", "bool")):
+            self.raise_py("TypeError", f"cannot unpack / iterate non-iterable {pyclass_kind(v)} object")
         raise Unsupported(f"iteration over {v!r}")
 
     def _iter_list(self, v):
